@@ -24,6 +24,7 @@
 #include "codegen.h"
 #include "nvm_format.h"
 #include "verifier.h"
+#include "vm.h"
 
 int g_argc = 0;
 char **g_argv = NULL;
@@ -48,7 +49,13 @@ static void load(const char *path) {
     }
 }
 
-/* exit codes of the child: 0 accepted, 1 rejected, 2 codegen/verify refused an accepted program */
+#ifdef NANOLANG_VERIF
+static long g_fuel_left = 0;
+static int fuel_step(VmState *vm) { (void)vm; return --g_fuel_left >= 0; }
+#endif
+
+/* exit codes of the child: 0 accepted, 1 rejected, 2 codegen/verify refused an accepted program,
+ * 20+r: (do_codegen == 2) the VM ended with VmResult r != VM_OK ("runtime error: <msg>" is the last stderr line) */
 static int front_end(const char *src, int do_codegen) {
     int token_count = 0;
     Token *tokens = tokenize(src, &token_count);
@@ -66,6 +73,19 @@ static int front_end(const char *src, int do_codegen) {
         if (!cg.ok) { fprintf(stderr, "error: codegen failed at line %d: %s\n", cg.error_line, cg.error_msg); return 2; }
         NvmVerifyResult vr = nvm_verify(cg.module);
         if (!vr.ok) { fprintf(stderr, "error: bytecode verification failed: %s\n", vr.error_msg); return 2; }
+        if (do_codegen == 2) {
+            VmState *vm = calloc(1, sizeof *vm);
+            vm_init(vm, cg.module);
+            vm->output = fopen("/dev/null", "w");
+#ifdef NANOLANG_VERIF
+            g_fuel_left = 200000; nl_verif_vm_step = fuel_step;
+#endif
+            VmResult r = vm_execute(vm);
+            if (r != VM_OK) {
+                fprintf(stderr, "\nruntime error: %s\n", vm->error_msg[0] ? vm->error_msg : vm_error_string(r));
+                return 20 + (int)r;
+            }
+        }
     }
     return 0;
 }
@@ -76,6 +96,7 @@ int main(int argc, char **argv) {
     uint64_t lo = strtoull(argv[2], NULL, 10), hi = strtoull(argv[3], NULL, 10);
     unsigned tmo = (unsigned)atoi(argv[4]);
     int do_codegen = argc > 5 && !strcmp(argv[5], "codegen");
+    if (argc > 5 && !strcmp(argv[5], "run")) do_codegen = 2;
     int verdicts = argc > 6 && !strcmp(argv[6], "verdicts");
     if (hi == 0 || hi > g_n) hi = g_n;
     setvbuf(stdout, NULL, _IOLBF, 0);
@@ -104,7 +125,24 @@ int main(int argc, char **argv) {
         struct stat sb; fstat(efd, &sb);
         if (WIFEXITED(st) && WEXITSTATUS(st) == 0) { acc++; if (verdicts) printf("V %llu A\n", (unsigned long long)i); }
         else if (WIFEXITED(st) && WEXITSTATUS(st) == 1 && sb.st_size > 0) { rej++; if (verdicts) printf("V %llu R\n", (unsigned long long)i); }
-        else if (WIFEXITED(st) && WEXITSTATUS(st) == 2) { cgref++; printf("CGREF idx=%llu\n", (unsigned long long)i); }
+        else if (WIFEXITED(st) && WEXITSTATUS(st) == 2) {
+            cgref++;
+            char tail[400] = {0}; off_t sz = sb.st_size, from = sz > 399 ? sz - 399 : 0;
+            if (pread(efd, tail, (size_t)(sz - from), from) < 0) tail[0] = 0;
+            char *ln = strstr(tail, "error: codegen"); if (!ln) ln = strstr(tail, "error: bytecode"); if (!ln) ln = tail;
+            for (char *c = ln; *c; c++) if (*c == '\n') *c = ' ';
+            printf("CGREF idx=%llu %s\n", (unsigned long long)i, ln);
+        }
+        else if (WIFEXITED(st) && WEXITSTATUS(st) >= 20) {
+            acc++;
+            char tail[400] = {0}; off_t sz = sb.st_size, from = sz > 399 ? sz - 399 : 0;
+            if (pread(efd, tail, (size_t)(sz - from), from) < 0) tail[0] = 0;
+            char *ln = NULL, *q = tail;
+            while ((q = strstr(q, "runtime error: ")) != NULL) { ln = q; q++; }
+            if (!ln) ln = tail;
+            for (char *c = ln; *c; c++) if (*c == '\n') *c = ' ';
+            printf("VMERR idx=%llu result=%d msg=%s\n", (unsigned long long)i, WEXITSTATUS(st) - 20, ln);
+        }
         else {
             bad++;
             if (WIFSIGNALED(st)) printf("BAD idx=%llu class=%s%d\n", (unsigned long long)i, WTERMSIG(st) == SIGALRM ? "timeout-signal" : "signal", WTERMSIG(st));
